@@ -69,7 +69,7 @@ def run(ctx):
         ig = IG(fn, inline=sf_inline, for_once=True)
         live = ig.live_nodes()
         sops, fences = slot_ops(ig, live)
-        cbs = [n for n in ig.ev_nodes() if n.id in live and n.frame.id == 0 and n.ev["e"] == "call" and
+        cbs = [n for n in ig.ev_nodes() if n.id in live and n.frame.owner_id == 0 and n.ev["e"] == "call" and
                n.ev.get("name") == "operator()" and strip_cast(n.ev.get("this", {})).get("k") == "cap"]
         stores = [a for a in sops if a.op == "store"]
         wloads = [a for a in sops if a.op == "load"]
